@@ -244,12 +244,13 @@ func runC11(c *Ctx) {
 		}
 	}
 
-	ruleSizeParam(c) // SIZE is decoded as an unsigned decimal that cannot wrap
+	ruleSizeParam(c)   // SIZE is decoded as an unsigned decimal that cannot wrap
 	ruleParamEnable(c) // a parameter of a disabled extension is refused, one of an enabled extension is not (each by its own flag)
 
 	ruleGrammarGuards(c)
 	ruleOptsPointerFresh(c)
 	ruleXtextDecodesEveryPlus(c)
+	rulePathBytesPassThrough(c)
 
 	R.Rule("R-enum-whitelist", "E3 edge-feasibility", "BODY, RET, NOTIFY elements and the ORCPT address type are accepted only when equal to a declared constant", 6)
 	if f := c.A.Func("(*Conn).handleMail"); f != nil {
